@@ -109,8 +109,8 @@ impl<'a> MsgVariant<'a> {
         }
     }
 
-    /// Emits match leg dispatching against this variant. Assumes enum variants are imported into the
-    /// scope. Dispatching is performed by calling the function this variant is build from on the
+    /// Emits match leg dispatching against this variant, to be used inside an impl of the message
+    /// enum. Dispatching is performed by calling the function this variant is build from on the
     /// `contract` variable, with `ctx` as its first argument - both of them should be in scope.
     pub fn emit_dispatch_leg(&self) -> TokenStream {
         let Self {
@@ -136,7 +136,7 @@ impl<'a> MsgVariant<'a> {
         let method_call = msg_attr.msg_type().emit_dispatch_leg(function_name, &args);
 
         quote! {
-            #name {
+            Self :: #name {
                 #(#fields,)*
             } => #method_call
         }
@@ -271,7 +271,7 @@ where
             return quote! {};
         }
         quote! {
-            _Phantom(_) => Err(#sylvia ::cw_std::StdError::generic_err("Phantom message should not be constructed.")).map_err(Into::into),
+            Self :: _Phantom(_) => Err(#sylvia ::cw_std::StdError::generic_err("Phantom message should not be constructed.")).map_err(Into::into),
         }
     }
 
